@@ -447,6 +447,17 @@ def random_doc(rng):
                     "sty": sorted(sty), "steps": _rnd_steps(rng, STEP_PROPS_REGION, hide),
                     "color": rng.choice(["none"] * 4 + COLORS), "bg": rng.choice(["none"] * 3 + COLORS),
                     "ta": rng.choice(["none"] * 3 + TAS)})
+  if regions and rng.random() < 0.1:
+    # a document-wide initial tts:extent, and a region that takes its extent from it while using tts:position
+    ini["sty"] = sorted(set(ini["sty"]) | {"Extent"})
+    victim = rng.choice(regions)
+    if victim["pos"] == "none":
+      donors = [_rnd_geo(rng) for _ in range(8)]
+      withpos = [g[1] for g in donors if g[1] != "none"]
+      if withpos:
+        victim["pos"] = withpos[0]
+    victim["org"] = "none"
+    victim["ext"] = "none"
   nodes = []
   if nreg > 0 and rng.random() < 0.06:
     return {"init": ini, "regions": regions, "nodes": nodes}      # no body
